@@ -15,6 +15,8 @@ Standard checks that can cover a whole row or data set.
 #
 # You should have received a copy of the GNU Lesser General Public License
 # along with this program.  If not, see <http://www.gnu.org/licenses/>.
+import ast
+import builtins
 import copy
 import tokenize
 
@@ -247,9 +249,22 @@ class DistinctCountCheck(AbstractCheck):
         self._distinct_value_to_count_map = None
         self.reset()
         self._eval()
+        self._validate_names_in_expression()
 
     def reset(self):
         self._distinct_value_to_count_map = {}
+
+    def _validate_names_in_expression(self):
+        """
+        Validate that the expression refers only to the count and Python's builtin functions. Evaluating it once
+        does not reveal unknown names, for example in the right operand of an ``or``.
+        """
+        for node in ast.walk(ast.parse(self._expression, mode="eval")):
+            if isinstance(node, ast.Name) and node.id != DistinctCountCheck._COUNT_NAME and not hasattr(builtins, node.id):
+                raise errors.InterfaceError(
+                    "cannot evaluate count expression %r: name %r is not defined" % (self._expression, node.id),
+                    self.location_of_rule,
+                )
 
     def _distinct_count(self):
         return len(self._distinct_value_to_count_map)
